@@ -2,7 +2,7 @@
 From Coq Require Import Lia.
 From ChitchatModel Require Import Base SMap Ids Bytes Params NodeState Stream DeltaWire Message
   Cluster FD Chitchat World SMap_lemmas NodeState_lemmas Builder_lemmas Cluster_lemmas Chitchat_lemmas Inv
-  Truth NodeInv NodeTruth Weak Reach Progress Potential ReachMono Monitors KeyMono.
+  Truth NodeInv NodeTruth Weak Reach Progress Potential ReachMono Monitors KeyMono GuardsGen GuardTie.
 
 (* For EVERY copy and EVERY node delta whose key-value versions do not exceed its max_version
    (all that the decoder's grammar lets through: C04_decoder_output_bounded), honest or not:
@@ -178,3 +178,27 @@ Theorem C04_every_step_passes_the_monitor : forall zc,
     Monitors.c04_nodes_ok (cs_nodes (nd_cs n)) (cs_nodes (nd_cs n')) = true.
 Proof. exact steps_pass_c04_monitor. Qed.
 Print Assumptions C04_every_step_passes_the_monitor.
+
+(* ---- the tie of the decision guards to the sources (GuardTie.v; see C14.v for the scheme):
+   the model function is the decision tree over the model's guards g_x, and each g_x cuts its
+   operands' space along the same boundary as rs_x, the translation of today's Rust expression
+   (regenerated on every run by tools/guards.py).  A source change that moves a boundary breaks
+   this theorem on the next run. ---- *)
+Theorem C04_admission_guards_are_the_source_guards :
+  (forall c d, check_delta_status c d =
+     if g_cds_future (d_from d) (c_max c) then Reject
+     else if negb (g_cds_compat (d_gc d) (c_gc c) (c_max c))
+          then (if g_cds_from_nonzero (d_from d) then Reject else ApplyAfterReset)
+          else if g_cds_newer (c_max c) (d_max d) then Apply else Reject) /\
+  ((forall dgc cgc cmax dmax dfrom, rs_cds_future dgc cgc cmax dmax dfrom = g_cds_future dfrom cmax) \/
+   (forall dgc cgc cmax dmax dfrom, rs_cds_future dgc cgc cmax dmax dfrom = negb (g_cds_future dfrom cmax))) /\
+  ((forall dgc cgc cmax dmax dfrom, rs_cds_compat dgc cgc cmax dmax dfrom = g_cds_compat dgc cgc cmax) \/
+   (forall dgc cgc cmax dmax dfrom, rs_cds_compat dgc cgc cmax dmax dfrom = negb (g_cds_compat dgc cgc cmax))) /\
+  ((forall dgc cgc cmax dmax dfrom, rs_cds_from_nonzero dgc cgc cmax dmax dfrom = g_cds_from_nonzero dfrom) \/
+   (forall dgc cgc cmax dmax dfrom, rs_cds_from_nonzero dgc cgc cmax dmax dfrom = negb (g_cds_from_nonzero dfrom))) /\
+  ((forall dgc cgc cmax dmax dfrom, rs_cds_newer dgc cgc cmax dmax dfrom = g_cds_newer cmax dmax) \/
+   (forall dgc cgc cmax dmax dfrom, rs_cds_newer dgc cgc cmax dmax dfrom = negb (g_cds_newer cmax dmax))).
+Proof.
+  exact (conj check_delta_status_is_the_tree (conj tie_cds_future (conj tie_cds_compat (conj tie_cds_from_nonzero tie_cds_newer)))).
+Qed.
+Print Assumptions C04_admission_guards_are_the_source_guards.
